@@ -56,3 +56,44 @@ Proof.
     clear E. vm_compute in Hw. injection Hw as ->. vm_compute. repeat split; auto.
   - exfalso. vm_compute in E. discriminate.
 Qed.
+
+(* the same history with a fresh last content (4 instead of 2) is in the domain and converges: the hypotheses of the
+   run-level theorems are satisfiable by a run in which the engine creates, uploads and goes quiet *)
+Definition conv_actions : list action :=
+  [AUser false (UCreate [[103]] 1);
+   AUser false (UCreate [[102]] 2);
+   AIntake false 1025000;
+   ASync [2%nat; 3%nat] 1029000;
+   AUser false (UWrite [[102]] 3);
+   ASync [3%nat] 1037000;
+   AUser false (UWrite [[102]] 4);
+   AIntake false 1045000;
+   AIntake true 1049000;
+   ASync [2%nat; 3%nat] 1053000;
+   AIntake false 1054000;
+   AIntake true 1054000;
+   ASync [3%nat] 1054000;
+   AIntake false 1058000;
+   AIntake true 1058000;
+   ASync [3%nat] 1060000;
+   AIntake false 1061000;
+   AIntake true 1061000;
+   ASync [] 1061000;
+   AIntake false 1061000;
+   AIntake true 1061000;
+   ASync [] 1061000].
+
+Lemma conv_converges :
+  in_F1 (cfg_std 1) (history_of conv_actions) = true /\ one_sided false (history_of conv_actions) = true /\
+  exists w, algo_run (world_init (cfg_std 1) aba_t0 aba_lg0) conv_actions = ROk w /\
+            quiescent w = true /\ views_equal w = true /\
+            In ([[102]], (ProvModel.KFile, 4)) (rel_view w false) /\ In ([[102]], (ProvModel.KFile, 4)) (rel_view w true) /\
+            In ([[103]], (ProvModel.KFile, 1)) (rel_view w true).
+Proof.
+  split; [reflexivity|]. split; [reflexivity|].
+  destruct (algo_run (world_init (cfg_std 1) aba_t0 aba_lg0) conv_actions) as [w|c] eqn:E.
+  - exists w. split; [reflexivity|].
+    assert (Hw: ROk w = algo_run (world_init (cfg_std 1) aba_t0 aba_lg0) conv_actions) by (symmetry; exact E).
+    clear E. vm_compute in Hw. injection Hw as ->. vm_compute. repeat split; auto.
+  - exfalso. vm_compute in E. discriminate.
+Qed.
